@@ -431,21 +431,29 @@ class Queue(Greenlet):
             return
         self.store.set_recipients_delivered(id, delivered)
 
+    def _dispatch(self, id):
+        # The id counts as active from the moment it leaves the timetable, so
+        # that a repeated announcement of it cannot be queued a second time.
+        if id not in self.active_ids:
+            self.active_ids.add(id)
+            self._pool_spawn('store', self._dequeue, id)
+
     def _dequeue(self, id):
         try:
             envelope, attempts = self.store.get(id)
-        except KeyError:
-            return
-        if id not in self.active_ids:
-            self.active_ids.add(id)
-            self._pool_spawn('relay', self._attempt, id, envelope, attempts)
+        except BaseException as exc:
+            self.active_ids.discard(id)
+            if isinstance(exc, KeyError):
+                return
+            raise
+        self._pool_spawn('relay', self._attempt, id, envelope, attempts)
 
     def _check_ready(self, now):
         last_i = 0
         for i, entry in enumerate(self.queued):
             timestamp, entry_id = entry
             if now >= timestamp:
-                self._pool_spawn('store', self._dequeue, entry_id)
+                self._dispatch(entry_id)
                 last_i = i+1
             else:
                 break
@@ -487,7 +495,7 @@ class Queue(Greenlet):
         self.queued_lock.acquire()
         try:
             for entry in self.queued:
-                self._pool_spawn('store', self._dequeue, entry[1])
+                self._dispatch(entry[1])
             self.queued = []
             self.queued_ids = set()
         finally:
